@@ -710,6 +710,22 @@ theorem step_ext {W : Ref → Prop} {h0 h h' : Heap} (fs : Funs) (e : Ext W h0 h
           exact ⟨e1, by simp, by intro m' hm'; cases hm'; exact s1⟩
         · cases hop
       · cases hop
+  | mutInv m f =>
+    simp only [step, Op.target] at hr ht
+    cases hop : mutInv h m f with
+    | error err => simp [hop, Except.map] at hr
+    | ok h1 =>
+      simp only [hop, Except.map, Except.ok.injEq, Prod.mk.injEq] at hr
+      obtain ⟨rfl, rfl⟩ := hr
+      unfold mutInv at hop
+      split at hop
+      · rename_i i vs d hm
+        obtain ⟨hgm, hgi⟩ := getModel_ok hm
+        obtain ⟨hi, _⟩ := e.model_fields ht hgm
+        simp only [Except.ok.injEq] at hop
+        subst hop
+        exact ⟨e.set _ hi hgi (by simp [Obj.refs]), Nat.le_refl _, by intro m' hm'; cases hm'⟩
+      · cases hop
 
 
 /-! ### observation only depends on what it reads -/
